@@ -125,49 +125,113 @@ def _compatible(g1, g2):
 # where does the value of an actual argument come from?
 
 STRIPPERS = {"np.asarray", "np.asanyarray", "np.array", "numpy.asarray"}
+# helpers that legitimately convert an argument before NumPy sees it:
+# name -> index of the argument whose data passes through
+PASS_THROUGH_FUNCS = {"_sanitize_range": 0}
 
 
-def source_params(expr, fn: FuncInfo, local_defs: dict, seen=frozenset()) -> set:
+def _arm_path(fn: FuncInfo):
+    """lineno -> tuple of (id(if-node), arm) for every statement of fn"""
+    out = {}
+
+    def go(stmts, ctx):
+        for st in stmts:
+            if not isinstance(st, (ast.If, ast.For, ast.While, ast.Try, ast.With)):
+                for ln in range(st.lineno, (st.end_lineno or st.lineno) + 1):
+                    out.setdefault(ln, ctx)
+            else:
+                out.setdefault(st.lineno, ctx)
+            if isinstance(st, ast.If):
+                for n in ast.walk(st.test):
+                    if hasattr(n, "lineno"):
+                        out.setdefault(n.lineno, ctx)
+                go(st.body, ctx + ((id(st), 0),))
+                go(st.orelse, ctx + ((id(st), 1),))
+            elif isinstance(st, (ast.For, ast.While, ast.With)):
+                go(st.body, ctx)
+                go(getattr(st, "orelse", []), ctx)
+            elif isinstance(st, ast.Try):
+                go(st.body, ctx)
+                for h in st.handlers:
+                    go(h.body, ctx)
+                go(st.orelse, ctx)
+                go(st.finalbody, ctx)
+
+    go(fn.node.body, ())
+    return out
+
+
+def _exclusive(p1, p2):
+    d1 = dict(p1)
+    for k, arm in p2:
+        if k in d1 and d1[k] != arm:
+            return True
+    return False
+
+
+def source_params(expr, fn: FuncInfo, local_defs: dict, seen=frozenset(), before=None) -> set:
     """the set of parameters (or names unpacked from the vararg) from which the
     *data* of ``expr`` derives through identity / np.asarray / comprehension of
     np.asarray / conditional-None / .view / local aliases.  Contains '?' when
-    the expression transforms data in a way the rule does not accept."""
+    the expression transforms data in a way the rule does not accept.
+    Only definitions textually before the use (``before`` = line of the use)
+    are considered, which is exact for the straight-line handler bodies."""
     e = expr
+    if before is None:
+        before = getattr(e, "lineno", None) or 10**9
     allp = set(fn.params) | ({fn.vararg} if fn.vararg else set()) | ({fn.kwarg} if fn.kwarg else set())
     if isinstance(e, ast.Constant):
         return set()
     if isinstance(e, ast.Name):
         out = set()
-        if e.id in allp or e.id not in local_defs:
+        arms = local_defs.get("__arms__")
+        if arms is None:
+            arms = local_defs["__arms__"] = _arm_path(fn)
+        here = arms.get(before, ())
+        defs = [
+            (ln, v)
+            for ln, v in local_defs.get(e.id, [])
+            if ln < before and not _exclusive(arms.get(ln, ()), here)
+        ]
+        if e.id in allp or not defs:
             out.add(e.id)
-        if e.id in local_defs and e.id not in seen:
-            for v in local_defs[e.id]:
-                out |= source_params(v, fn, local_defs, seen | {e.id})
+        if defs and e.id not in seen:
+            if e.id in allp and all(_unconditional(fn, ln) for ln, _ in defs):
+                out.discard(e.id)  # the parameter is always re-bound before the use
+            for ln, v in defs:
+                out |= source_params(v, fn, local_defs, seen | {e.id}, ln)
         return out
     if isinstance(e, ast.Starred):
-        return source_params(e.value, fn, local_defs, seen)
+        return source_params(e.value, fn, local_defs, seen, before)
     if isinstance(e, ast.Call):
         f = norm(e.func)
         if f in STRIPPERS and len(e.args) == 1 and not e.keywords:
-            return source_params(e.args[0], fn, local_defs, seen)
+            return source_params(e.args[0], fn, local_defs, seen, before)
         if isinstance(e.func, ast.Attribute) and e.func.attr == "view" and e.args and norm(e.args[0]) == "np.ndarray":
-            return source_params(e.func.value, fn, local_defs, seen)
+            return source_params(e.func.value, fn, local_defs, seen, before)
+        if f in PASS_THROUGH_FUNCS and len(e.args) > PASS_THROUGH_FUNCS[f]:
+            return source_params(e.args[PASS_THROUGH_FUNCS[f]], fn, local_defs, seen, before)
         return {"?"}
     if isinstance(e, (ast.ListComp, ast.GeneratorExp)) and len(e.generators) == 1:
         g = e.generators[0]
         tv = norm(g.target)
         el = e.elt
         if isinstance(el, ast.Call) and norm(el.func) in STRIPPERS and len(el.args) == 1 and norm(el.args[0]) == tv and not g.ifs:
-            return source_params(g.iter, fn, local_defs, seen)
+            return source_params(g.iter, fn, local_defs, seen, before)
         if norm(el) == tv and not g.ifs:
-            return source_params(g.iter, fn, local_defs, seen)
+            return source_params(g.iter, fn, local_defs, seen, before)
         return {"?"}
     if isinstance(e, ast.IfExp):
-        return source_params(e.body, fn, local_defs, seen) | source_params(e.orelse, fn, local_defs, seen)
+        return source_params(e.body, fn, local_defs, seen, before) | source_params(e.orelse, fn, local_defs, seen, before)
     if isinstance(e, ast.Subscript):
-        s = source_params(e.value, fn, local_defs, seen)
+        s = source_params(e.value, fn, local_defs, seen, before)
         return {f"{x}[{norm(e.slice)}]" if x != "?" else "?" for x in s}
     return {"?"}
+
+
+def _unconditional(fn, lineno):
+    """is the statement at ``lineno`` a top-level statement of the function body?"""
+    return any(getattr(st, "lineno", None) == lineno for st in fn.node.body)
 
 
 def local_value_defs(fn: FuncInfo) -> dict:
@@ -178,16 +242,16 @@ def local_value_defs(fn: FuncInfo) -> dict:
         if isinstance(n, ast.Assign) and len(n.targets) == 1:
             t = n.targets[0]
             if isinstance(t, ast.Name):
-                defs.setdefault(t.id, []).append(n.value)
+                defs.setdefault(t.id, []).append((n.end_lineno, n.value))
             elif isinstance(t, (ast.Tuple, ast.List)):
                 # x, y, *args = args     /   a, b = helper(a, b)
                 for i, el in enumerate(t.elts):
                     if isinstance(el, ast.Name):
                         defs.setdefault(el.id, []).append(
-                            ast.Subscript(value=n.value, slice=ast.Constant(value=i), ctx=ast.Load())
+                            (n.end_lineno, ast.Subscript(value=n.value, slice=ast.Constant(value=i), ctx=ast.Load()))
                         )
                     elif isinstance(el, ast.Starred) and isinstance(el.value, ast.Name):
                         defs.setdefault(el.value.id, []).append(
-                            ast.Subscript(value=n.value, slice=ast.Slice(lower=ast.Constant(value=i)), ctx=ast.Load())
+                            (n.end_lineno, ast.Subscript(value=n.value, slice=ast.Slice(lower=ast.Constant(value=i)), ctx=ast.Load()))
                         )
     return defs
